@@ -1,4 +1,5 @@
 import H4.Limits
+import H4.VsfldEnc
 import H4.Driver.Util
 import H4.Gen.Fn.Hfiledd
 namespace H4.Driver
@@ -191,13 +192,32 @@ def stepLimits (st : LimSt) (args : List String) : LimSt × String :=
     | none => bad
   | ["fdefine", sz, o] =>
     match sz.toNat?, o.toInt? with
-    | some sz, some o => (st, if fdefineOk (some sz) o then "ok" else "fail")
+    | some sz, some o =>
+      let ok := fdefineOk (some sz) o
+      -- the translated VSfdefine / DFKNTsize on a number type of that size (CHAR8, INT16, INT32, FLOAT64), empty symbol table
+      let t : Int := if sz == 1 then 4 else if sz == 2 then 22 else if sz == 4 then 24 else 6
+      let g := H4.VsfldEnc.runFdefine 1 [] "F" t o
+      let gen := if g.ub then " GEN=ub" else if g.oof then " GEN=oof" else if (g.ret == 0) != ok then s!" GEN=ret{g.ret}" else ""
+      (st, (if ok then "ok" else "fail") ++ gen)
     | _, _ => bad
   | ["setfields", n, sizes] =>
-    match n.toNat?, natList sizes with
-    | some n, some l => if n != l.length then bad else
-      let (ok, k, _) := setfields l
-      (st, s!"{if ok then "ok" else "fail"} {k}")
+    -- an entry is the order of a user-defined CHAR8 field `G<i>`, or the name of a predefined field (4 bytes)
+    let toks := if sizes == "-" then [] else sizes.splitOn ","
+    let entries : List (Option (String × Nat)) := toks.zipIdx.map fun (t, i) =>
+      match t.toNat? with
+      | some k => some (s!"G{i}", k)
+      | none => (H4.VData.rstab.find? (·.name == t)).map fun sd => (sd.name, sd.order * sd.isize)
+    match n.toNat?, entries.mapM id with
+    | some n, some es => if n != es.length then bad else
+      let (ok, k, iv) := setfields (es.map (·.2))
+      -- the translated VSsetfields on a writable, empty vdata whose user symbols are the numeric entries
+      let usym : List H4.VData.SymDef := (toks.zipIdx.filterMap fun (t, i) => t.toNat?.map fun k => (⟨s!"G{i}", 4, 1, k⟩ : H4.VData.SymDef))
+      let names := es.map (·.1)
+      let g := H4.VsfldEnc.runSetfields (names.length + usym.length + 10) { usym := usym } names
+      let gen := if g.ub then " GEN=ub" else if g.oof then " GEN=oof"
+        else if (g.ret == 0) != ok || g.vs_wlist_n != (k : Int) || g.vs_wlist_ivsize != (iv : Int) then s!" GEN=ret{g.ret}/n{g.vs_wlist_n}/ivsize{g.vs_wlist_ivsize}"
+        else ""
+      (st, s!"{if ok then "ok" else "fail"} {k}" ++ gen)
     | _, _ => bad
   | ["name", api, len] =>
     match apiOf api, len.toNat? with
